@@ -2,355 +2,17 @@ import Model.Ring
 import Proofs.C16Ring
 import Proofs.C16Refresh
 import Proofs.C16Index
-/-! helper lemmas: the by-address index along the diff loop of refreshRing (repaired `removeHost`).
+/-! helper lemmas: the by-address index along refreshRing (repaired: removals first, then additions).
 
-Inside the loop two hosts can share an address (a new host id on the address of a host that has not
-been removed yet; two hosts swapping addresses), so full consistency (`RInv`) is NOT a loop invariant.
-The loop invariant `IdxCore acc accA` is: weak consistency (`Cov`: every address of a host of the ring
-is indexed to a host of the ring with that address), every host ACCEPTED so far (id in `acc`) is the one
-its address is indexed to, accepted hosts have their address in `accA`, and the not-yet-accepted hosts
-(the old ones) have pairwise distinct addresses. -/
+Pass 1 only removes hosts, which keeps full consistency (`RInv_remove`). Every host that is left has the
+node address of an accepted reported row of its id; pass 2 adds accepted rows whose id is missing, so a
+host added never meets a host with another id on its address as long as the accepted rows have pairwise
+distinct node addresses: full consistency (`RInv`) is an invariant of both loops. (Before the repair hosts
+were added while the previous owner of their address was still in the ring.) -/
 namespace C16
 open Ring
 
-structure IdxCore (acc accA : List Nat) (r : Ring.Ring) : Prop where
-  knodup : (keys r.byId).Nodup
-  cov : Cov r
-  accIdx : ∀ e ∈ r.byId, e.1 ∈ acc → lookup r.byIp e.2.addr = some e.1
-  accAddr : ∀ e ∈ r.byId, e.1 ∈ acc → e.2.addr ∈ accA
-  oldUniq : ∀ e1 ∈ r.byId, ∀ e2 ∈ r.byId, e1.1 ∉ acc → e2.1 ∉ acc → e1.2.addr = e2.2.addr → e1.1 = e2.1
-
-theorem IdxCore_of_RInv (r : Ring.Ring) (hr : RInv r) : IdxCore [] [] r :=
-  ⟨hr.knodup, RInv_cov r hr, by simp, by simp, fun e1 h1 e2 h2 _ _ heq => hr.uniq e1 h1 e2 h2 heq⟩
-
-/-- at the end (every host accepted) the loop invariant is full consistency -/
-theorem RInv_of_IdxCore (acc accA : List Nat) (r : Ring.Ring) (hw : WF r.byId) (hc : IdxCore acc accA r)
-    (hall : ∀ e ∈ r.byId, e.1 ∈ acc) : RInv r := by
-  refine ⟨hw, hc.knodup, fun e he => hc.accIdx e he (hall e he), ?_⟩
-  intro e1 he1 e2 he2 heq
-  have a := hc.accIdx e1 he1 (hall e1 he1)
-  have b := hc.accIdx e2 he2 (hall e2 he2)
-  rw [heq, b] at a
-  exact (Option.some.inj a).symm
-
-/-- removing a host that has not been accepted (an old host: vanished, or about to be re-added on its
-new address) -/
-theorem IdxCore_remove (acc accA : List Nat) (r : Ring.Ring) (hc : IdxCore acc accA r) (k : Nat) (hk : k ∉ acc) :
-    IdxCore acc accA (r.remove k).1 := by
-  have hK : ∀ e ∈ r.byId, e.1 ≠ k → lookup r.byIp e.2.addr ≠ some k := by
-    intro e he hne hidx
-    obtain ⟨e', he', h1, h2⟩ := hc.cov e he
-    rw [h2] at hidx
-    have hk' : e'.1 = k := Option.some.inj hidx
-    by_cases hacc : e.1 ∈ acc
-    · have := hc.accIdx e he hacc
-      rw [h2] at this
-      exact hne ((Option.some.inj this).symm.trans hk')
-    · have := hc.oldUniq e he e' he' hacc (fun h => hk (hk' ▸ h)) h1.symm
-      exact hne (this.trans hk')
-  refine ⟨knodup_remove r hc.knodup k, Cov_remove r hc.cov k hK, ?_, ?_, ?_⟩
-  · intro e he hacc
-    rw [mem_remove] at he
-    rw [byIp_remove_keep r k _ (hK e he.1 he.2)]
-    exact hc.accIdx e he.1 hacc
-  · intro e he hacc
-    rw [mem_remove] at he
-    exact hc.accAddr e he.1 hacc
-  · intro e1 he1 e2 he2 h1 h2 heq
-    rw [mem_remove] at he1 he2
-    exact hc.oldUniq e1 he1.1 e2 he2.1 h1 h2 heq
-
-/-- adding an accepted host with a new id; its address is not the address of an earlier accepted host -/
-theorem IdxCore_add_new (acc accA : List Nat) (r : Ring.Ring) (hc : IdxCore acc accA r) (h : RHost)
-    (hn : lookup r.byId h.id = none) (ha : h.addr ∉ accA) :
-    IdxCore (acc ++ [h.id]) (accA ++ [h.addr]) (r.addIfMissing h).1 := by
-  have hnk : ∀ e ∈ r.byId, e.1 ≠ h.id := by
-    intro e he hk
-    rw [lookup_eq_none] at hn
-    exact hn (hk ▸ List.mem_map.mpr ⟨e, he, rfl⟩)
-  have old : ∀ e ∈ r.byId, e.1 ∈ acc ++ [h.id] → e.1 ∈ acc := by
-    intro e he hacc
-    rcases List.mem_append.mp hacc with h1 | h1
-    · exact h1
-    · exact absurd (List.mem_singleton.mp h1) (hnk e he)
-  have isOld : ∀ e ∈ (r.addIfMissing h).1.byId, e.1 ∉ acc ++ [h.id] → e ∈ r.byId := by
-    intro e he hna
-    rcases (mem_add_new r h hn e).mp he with rfl | he
-    · exact absurd (List.mem_append_right _ (List.mem_singleton.mpr rfl)) hna
-    · exact he
-  refine ⟨knodup_addIfMissing r hc.knodup h, Cov_addIfMissing r hc.cov h, ?_, ?_, ?_⟩
-  · intro e he hacc
-    rw [byIp_add_new r h hn]
-    rcases (mem_add_new r h hn e).mp he with rfl | he
-    · exact lookup_put_self _ _ _
-    · have hacc' := old e he hacc
-      have hne : e.2.addr ≠ h.addr := fun heq => ha (heq ▸ hc.accAddr e he hacc')
-      rw [lookup_put_ne _ _ _ _ hne]
-      exact hc.accIdx e he hacc'
-  · intro e he hacc
-    rcases (mem_add_new r h hn e).mp he with rfl | he
-    · exact List.mem_append_right _ (List.mem_singleton.mpr rfl)
-    · exact List.mem_append_left _ (hc.accAddr e he (old e he hacc))
-  · intro e1 he1 e2 he2 h1 h2 heq
-    exact hc.oldUniq e1 (isOld e1 he1 h1) e2 (isOld e2 he2 h2)
-      (fun h => h1 (List.mem_append_left _ h)) (fun h => h2 (List.mem_append_left _ h)) heq
-
-/-- accepting a host that stays in place (same id, same address: `host.update(h)`) -/
-theorem IdxCore_accept (acc accA : List Nat) (r : Ring.Ring) (hc : IdxCore acc accA r) (e0 : Nat × RHost)
-    (he0 : e0 ∈ r.byId) (hk : e0.1 ∉ acc) (ha : e0.2.addr ∉ accA) :
-    IdxCore (acc ++ [e0.1]) (accA ++ [e0.2.addr]) r := by
-  refine ⟨hc.knodup, hc.cov, ?_, ?_, ?_⟩
-  · intro e he hacc
-    rcases List.mem_append.mp hacc with h1 | h1
-    · exact hc.accIdx e he h1
-    · have : e = e0 := mem_key_unique _ hc.knodup e e0 he he0 (List.mem_singleton.mp h1)
-      subst this
-      obtain ⟨e', he', h1', h2⟩ := hc.cov e he
-      have hnacc : e'.1 ∉ acc := fun h => ha (h1' ▸ hc.accAddr e' he' h)
-      have := hc.oldUniq e' he' e he hnacc hk h1'
-      rw [h2, this]
-  · intro e he hacc
-    rcases List.mem_append.mp hacc with h1 | h1
-    · exact List.mem_append_left _ (hc.accAddr e he h1)
-    · have : e = e0 := mem_key_unique _ hc.knodup e e0 he he0 (List.mem_singleton.mp h1)
-      subst this
-      exact List.mem_append_right _ (List.mem_singleton.mpr rfl)
-  · intro e1 he1 e2 he2 h1 h2 heq
-    exact hc.oldUniq e1 he1 e2 he2 (fun h => h1 (List.mem_append_left _ h)) (fun h => h2 (List.mem_append_left _ h)) heq
-
-theorem IdxCore_removeAll (acc accA : List Nat) (prev : List (Nat × RHost)) (hp : ∀ p ∈ prev, p.2.id ∉ acc)
-    (r : Ring.Ring) (hc : IdxCore acc accA r) : IdxCore acc accA (removeAll r prev) := by
-  induction prev generalizing r with
-  | nil => exact hc
-  | cons p t ih =>
-    obtain ⟨k, v⟩ := p
-    unfold removeAll
-    exact ih (fun p hp' => hp p (List.mem_cons_of_mem _ hp')) _
-      (IdxCore_remove acc accA r hc v.id (hp (k, v) List.mem_cons_self))
-
-/-- the part of the loop invariant that speaks of the indexes: `IdxCore` + every entry of `prevHosts`
-is the ring's entry of a not-yet-accepted host -/
-structure IdxInv (acc accA : List Nat) (st : Ring.Ring × List (Nat × RHost) × Effects) : Prop where
-  core : IdxCore acc accA st.1
-  prevSub : ∀ e ∈ st.2.1, e ∈ st.1.byId ∧ e.1 ∉ acc
-
-theorem prevSub_erase (acc : List Nat) (prev byId byId' : List (Nat × RHost)) (k : Nat)
-    (hp : ∀ e ∈ prev, e ∈ byId ∧ e.1 ∉ acc) (hk : ∀ e ∈ byId, e.1 ≠ k → e ∈ byId') :
-    ∀ e ∈ erase prev k, e ∈ byId' ∧ e.1 ∉ acc ++ [k] := by
-  intro e he
-  rw [mem_erase] at he
-  have ⟨h1, h2⟩ := hp e he.1
-  refine ⟨hk e h1 he.2, ?_⟩
-  intro hacc
-  rcases List.mem_append.mp hacc with h3 | h3
-  · exact h2 h3
-  · exact he.2 (List.mem_singleton.mp h3)
-
-theorem step_idx (filter : RHost → Bool) (r0 : Ring.Ring) (acc accA : List Nat)
-    (st : Ring.Ring × List (Nat × RHost) × Effects) (h : RHost) (hi : LoopInv r0 acc st) (hx : IdxInv acc accA st)
-    (hf : filter h = false) (hnew : h.id ∉ acc) (ha : h.addr ∉ accA) :
-    IdxInv (acc ++ [h.id]) (accA ++ [h.addr]) (refreshStep filter st h).1 := by
-  obtain ⟨r, prev, eff⟩ := st
-  have hcore : IdxCore acc accA r := hx.core
-  have hps : ∀ e ∈ prev, e ∈ r.byId ∧ e.1 ∉ acc := hx.prevSub
-  unfold refreshStep
-  simp only [hf, Bool.false_eq_true, ↓reduceIte]
-  cases hl : lookup r.byId h.id with
-  | none =>
-    have e1 : r.addIfMissing h = ((r.addIfMissing h).1, h, false) := by rw [addIfMissing_of_none r h hl]
-    rw [e1]
-    dsimp only
-    refine ⟨IdxCore_add_new acc accA r hcore h hl ha, ?_⟩
-    exact prevSub_erase acc prev r.byId _ h.id hps (fun e he _ => (mem_add_new r h hl e).mpr (Or.inr he))
-  | some e0 =>
-    rw [addIfMissing_of_some r h e0 hl]
-    dsimp only
-    have hex : h.id ∈ keys r.byId := lookup_mem_keys _ _ _ hl
-    have hin0 : h.id ∈ keys r0.byId := by
-      rcases (hi.ids h.id).mp hex with h1 | h1
-      · exact h1
-      · exact absurd h1 hnew
-    have hinp : h.id ∈ keys prev := (hi.prev h.id).mpr ⟨hin0, hnew⟩
-    cases hlp : lookup prev h.id with
-    | none => rw [lookup_eq_none] at hlp; exact absurd hinp hlp
-    | some ex =>
-      dsimp only
-      have hexm : (h.id, ex) ∈ prev := lookup_some_mem _ _ _ hlp
-      have hexr : (h.id, ex) ∈ r.byId := (hps _ hexm).1
-      have hexid : ex.id = h.id := hi.wfp _ hexm
-      by_cases hcond : (h.caddr == ex.caddr && h.addr == ex.addr) = true
-      · rw [if_pos hcond]
-        dsimp only
-        have hadr : ex.addr = h.addr := by
-          simp only [Bool.and_eq_true, beq_iff_eq] at hcond
-          exact hcond.2.symm
-        refine ⟨?_, prevSub_erase acc prev r.byId _ h.id hps (fun e he _ => he)⟩
-        have := IdxCore_accept acc accA r hcore (h.id, ex) hexr hnew (by rw [hadr]; exact ha)
-        dsimp only at this
-        rw [hadr] at this
-        exact this
-      · rw [if_neg hcond]
-        rw [hexid]
-        have hl2 : lookup (r.remove h.id).1.byId h.id = none := by
-          rw [lookup_eq_none, ids_remove]
-          exact fun hh => hh.2 rfl
-        have e2 : (r.remove h.id).1.addIfMissing h = (((r.remove h.id).1.addIfMissing h).1, h, false) := by
-          rw [addIfMissing_of_none _ h hl2]
-        rw [e2]
-        dsimp only
-        refine ⟨IdxCore_add_new acc accA _ (IdxCore_remove acc accA r hcore h.id hnew) h hl2 ha, ?_⟩
-        exact prevSub_erase acc prev r.byId _ h.id hps (fun e he hne =>
-          (mem_add_new _ h hl2 e).mpr (Or.inr ((mem_remove r h.id e).mpr ⟨he, hne⟩)))
-
-def acceptedAddrs (filter : RHost → Bool) (reported : List RHost) : List Nat :=
-  (reported.filter (fun h => !filter h)).map (·.addr)
-
-theorem loop_idx (filter : RHost → Bool) (r0 : Ring.Ring) (reported : List RHost) :
-    ∀ (acc accA : List Nat) (st : Ring.Ring × List (Nat × RHost) × Effects), LoopInv r0 acc st → IdxInv acc accA st →
-      (acceptedIds filter reported).Nodup → (∀ id ∈ acceptedIds filter reported, id ∉ acc) →
-      (acceptedAddrs filter reported).Nodup → (∀ a ∈ acceptedAddrs filter reported, a ∉ accA) →
-      IdxInv (acc ++ acceptedIds filter reported) (accA ++ acceptedAddrs filter reported) (refreshLoop filter reported st).1 := by
-  induction reported with
-  | nil =>
-    intro acc accA st _ hx _ _ _ _
-    simp only [acceptedIds, acceptedAddrs, List.filter_nil, List.map_nil, List.append_nil]
-    exact hx
-  | cons h t ih =>
-    intro acc accA st hi hx hn hd hna hda
-    unfold refreshLoop
-    cases hf : filter h with
-    | true =>
-      rw [step_filtered filter st h hf]
-      simp only [if_true]
-      have e : acceptedIds filter (h :: t) = acceptedIds filter t := by simp [acceptedIds, hf]
-      have e' : acceptedAddrs filter (h :: t) = acceptedAddrs filter t := by simp [acceptedAddrs, hf]
-      rw [e] at hn hd ⊢
-      rw [e'] at hna hda ⊢
-      exact ih acc accA st hi hx hn hd hna hda
-    | false =>
-      have e : acceptedIds filter (h :: t) = h.id :: acceptedIds filter t := by simp [acceptedIds, hf]
-      have e' : acceptedAddrs filter (h :: t) = h.addr :: acceptedAddrs filter t := by simp [acceptedAddrs, hf]
-      rw [e] at hn hd ⊢
-      rw [e'] at hna hda ⊢
-      rw [List.nodup_cons] at hn hna
-      have hnew := hd h.id List.mem_cons_self
-      have hanew := hda h.addr List.mem_cons_self
-      have ⟨hok, hi'⟩ := step_inv filter r0 acc st h hi hf hnew
-      have hx' := step_idx filter r0 acc accA st h hi hx hf hnew hanew
-      generalize refreshStep filter st h = res at hok hi' hx'
-      obtain ⟨st', res'⟩ := res
-      dsimp only at hok hi' hx' ⊢
-      subst hok
-      simp only [if_true]
-      have := ih (acc ++ [h.id]) (accA ++ [h.addr]) st' hi' hx' hn.2 (by
-        intro id hid hacc
-        rw [List.mem_append, List.mem_singleton] at hacc
-        rcases hacc with h1 | h1
-        · exact hd id (List.mem_cons_of_mem _ hid) h1
-        · subst h1; exact hn.1 hid) hna.2 (by
-        intro a hid hacc
-        rw [List.mem_append, List.mem_singleton] at hacc
-        rcases hacc with h1 | h1
-        · exact hda a (List.mem_cons_of_mem _ hid) h1
-        · subst h1; exact hna.1 hid)
-      rw [List.append_assoc, List.append_assoc] at this
-      exact this
-
-/-- every ring reachable by ring operations and refreshes stores each host under its own id -/
-theorem WF_refresh (r : Ring.Ring) (hw : WF r.byId) (filter : RHost → Bool) (reported : List RHost)
-    (hn : (acceptedIds filter reported).Nodup) : WF (r.refresh filter reported).1.byId := by
-  have h0 : LoopInv r [] (r, r.byId, {}) := ⟨by simp, by simp, hw, hw⟩
-  have ⟨hok, hi⟩ := loop_inv filter r reported [] _ h0 hn (by simp)
-  unfold Ring.refresh
-  generalize refreshLoop filter reported (r, r.byId, {}) = res at hok hi
-  obtain ⟨⟨r1, prev, eff⟩, res'⟩ := res
-  dsimp only at hok hi
-  subst hok
-  dsimp only
-  have : ∀ (p : List (Nat × RHost)) (r : Ring.Ring), WF r.byId → WF (removeAll r p).byId := by
-    intro p
-    induction p with
-    | nil => intro r h; exact h
-    | cons e t ih => intro r h; obtain ⟨k, v⟩ := e; exact ih _ (WF_remove r v.id h)
-  exact this prev r1 hi.wf
-
-/-- a refresh whose accepted reported hosts have pairwise distinct ids and pairwise distinct addresses
-takes a fully consistent ring to a fully consistent ring -/
-theorem refresh_RInv (r : Ring.Ring) (hr : RInv r) (filter : RHost → Bool) (reported : List RHost)
-    (hn : (acceptedIds filter reported).Nodup) (hna : (acceptedAddrs filter reported).Nodup) :
-    RInv (r.refresh filter reported).1 := by
-  have hwf := WF_refresh r hr.wf filter reported hn
-  have hex := (refresh_exact r hr.wf filter reported hn).2
-  have h0 : LoopInv r [] (r, r.byId, {}) := ⟨by simp, by simp, hr.wf, hr.wf⟩
-  have hx0 : IdxInv [] [] (r, r.byId, {}) := ⟨IdxCore_of_RInv r hr, fun e he => ⟨he, by simp⟩⟩
-  have ⟨hok, hi⟩ := loop_inv filter r reported [] _ h0 hn (by simp)
-  have hx := loop_idx filter r reported [] [] _ h0 hx0 hn (by simp) hna (by simp)
-  unfold Ring.refresh at hwf hex ⊢
-  generalize refreshLoop filter reported (r, r.byId, {}) = res at hok hi hx hwf hex
-  obtain ⟨⟨r1, prev, eff⟩, res'⟩ := res
-  dsimp only at hok hi hx
-  subst hok
-  dsimp only at hwf hex ⊢
-  simp only [List.nil_append] at hx
-  have hp : ∀ p ∈ prev, p.2.id ∉ acceptedIds filter reported := by
-    intro p hp
-    rw [hi.wfp p hp]
-    exact (hx.prevSub p hp).2
-  have hc := IdxCore_removeAll _ _ prev hp r1 hx.core
-  exact RInv_of_IdxCore _ _ _ hwf hc (fun e he => (hex e.1).mp (List.mem_map.mpr ⟨e, he, rfl⟩))
-
 /-! ### any property kept by the two mutating ring operations is kept by a refresh (whatever is reported) -/
-
-theorem step_preserves (P : Ring.Ring → Prop) (hadd : ∀ r h, P r → P (r.addIfMissing h).1)
-    (hrm : ∀ r k, P r → P (r.remove k).1) (filter : RHost → Bool)
-    (st : Ring.Ring × List (Nat × RHost) × Effects) (h : RHost) (hp : P st.1) : P (refreshStep filter st h).1.1 := by
-  obtain ⟨r, prev, eff⟩ := st
-  unfold refreshStep
-  cases hf : filter h with
-  | true => simpa using hp
-  | false =>
-    simp only [Bool.false_eq_true, ↓reduceIte]
-    cases hl : lookup r.byId h.id with
-    | none =>
-      have e1 : r.addIfMissing h = ((r.addIfMissing h).1, h, false) := by rw [addIfMissing_of_none r h hl]
-      rw [e1]
-      exact hadd r h hp
-    | some e0 =>
-      rw [addIfMissing_of_some r h e0 hl]
-      dsimp only
-      cases hlp : lookup prev h.id with
-      | none => exact hp
-      | some ex =>
-        dsimp only
-        by_cases hcond : (h.caddr == ex.caddr && h.addr == ex.addr) = true
-        · rw [if_pos hcond]; exact hp
-        · rw [if_neg hcond]
-          have hp2 := hrm r ex.id hp
-          cases hl2 : lookup (r.remove ex.id).1.byId h.id with
-          | none =>
-            have e2 : (r.remove ex.id).1.addIfMissing h = (((r.remove ex.id).1.addIfMissing h).1, h, false) := by
-              rw [addIfMissing_of_none _ h hl2]
-            rw [e2]
-            exact hadd _ h hp2
-          | some e3 =>
-            rw [addIfMissing_of_some _ h e3 hl2]
-            exact hp2
-
-theorem loop_preserves (P : Ring.Ring → Prop) (hadd : ∀ r h, P r → P (r.addIfMissing h).1)
-    (hrm : ∀ r k, P r → P (r.remove k).1) (filter : RHost → Bool) (reported : List RHost) :
-    ∀ (st : Ring.Ring × List (Nat × RHost) × Effects), P st.1 → P (refreshLoop filter reported st).1.1 := by
-  induction reported with
-  | nil => intro st hp; exact hp
-  | cons h t ih =>
-    intro st hp
-    unfold refreshLoop
-    have := step_preserves P hadd hrm filter st h hp
-    generalize refreshStep filter st h = res at this
-    obtain ⟨st', res'⟩ := res
-    dsimp only at this ⊢
-    split
-    · exact ih st' this
-    · exact this
 
 theorem removeAll_preserves (P : Ring.Ring → Prop) (hrm : ∀ r k, P r → P (r.remove k).1)
     (prev : List (Nat × RHost)) : ∀ r, P r → P (removeAll r prev) := by
@@ -358,17 +20,82 @@ theorem removeAll_preserves (P : Ring.Ring → Prop) (hrm : ∀ r k, P r → P (
   | nil => intro r hp; exact hp
   | cons p t ih => intro r hp; obtain ⟨k, v⟩ := p; exact ih _ (hrm r v.id hp)
 
+theorem addAll_preserves (P : Ring.Ring → Prop) (hadd : ∀ r h, P r → P (r.addIfMissing h).1)
+    (l : List RHost) : ∀ r, P r → P (l.foldl (fun r h => (r.addIfMissing h).1) r) := by
+  induction l with
+  | nil => intro r hp; exact hp
+  | cons h t ih => intro r hp; exact ih _ (hadd r h hp)
+
 theorem refresh_preserves (P : Ring.Ring → Prop) (hadd : ∀ r h, P r → P (r.addIfMissing h).1)
     (hrm : ∀ r k, P r → P (r.remove k).1) (r : Ring.Ring) (hp : P r) (filter : RHost → Bool) (reported : List RHost) :
     P (r.refresh filter reported).1 := by
-  have := loop_preserves P hadd hrm filter reported (r, r.byId, {}) hp
-  unfold Ring.refresh
-  generalize refreshLoop filter reported (r, r.byId, {}) = res at this
-  obtain ⟨⟨r1, prev, eff⟩, res'⟩ := res
-  dsimp only at this
-  cases res' with
-  | ok => exact removeAll_preserves P hrm prev r1 this
-  | errCannotFind => exact this
-  | errAlreadyExists => exact this
+  rw [refresh_ring]
+  exact addAll_preserves P hadd _ _ (removeAll_preserves P hrm _ r hp)
+
+/-! ### full consistency -/
+
+def acceptedAddrs (filter : RHost → Bool) (reported : List RHost) : List Nat :=
+  (reported.filter (fun h => !filter h)).map (·.addr)
+
+theorem eq_of_nodup_map {α β : Type} (f : α → β) (l : List α) (hn : (l.map f).Nodup) (x y : α) (hx : x ∈ l) (hy : y ∈ l)
+    (he : f x = f y) : x = y := by
+  induction l with
+  | nil => cases hx
+  | cons a t ih =>
+    simp only [List.map_cons, List.nodup_cons] at hn
+    rcases List.mem_cons.mp hx with rfl | hx' <;> rcases List.mem_cons.mp hy with rfl | hy'
+    · rfl
+    · exact absurd (List.mem_map.mpr ⟨y, hy', he.symm⟩) hn.1
+    · exact absurd (List.mem_map.mpr ⟨x, hx', he⟩) hn.1
+    · exact ih hn.2 hx' hy'
+
+/-- every host of the ring has the id and node address of a host of `acc` -/
+def Matched (acc : List RHost) (r : Ring.Ring) : Prop := ∀ e ∈ r.byId, ∃ h ∈ acc, h.id = e.1 ∧ h.addr = e.2.addr
+
+theorem addAll_RInv (acc : List RHost) (hna : (acc.map (·.addr)).Nodup) (l : List RHost) (hl : ∀ h ∈ l, h ∈ acc) :
+    ∀ (r : Ring.Ring), RInv r → Matched acc r →
+      RInv (l.foldl (fun r h => (r.addIfMissing h).1) r) ∧ Matched acc (l.foldl (fun r h => (r.addIfMissing h).1) r) := by
+  induction l with
+  | nil => intro r hr hm; exact ⟨hr, hm⟩
+  | cons h t ih =>
+    intro r hr hm
+    simp only [List.foldl_cons]
+    apply ih (fun x hx => hl x (List.mem_cons_of_mem _ hx))
+    · apply RInv_addIfMissing r hr h
+      intro e he heq
+      obtain ⟨h', hh', hid, had⟩ := hm e he
+      have : h' = h := eq_of_nodup_map (·.addr) acc hna h' h hh' (hl h List.mem_cons_self) (had.trans heq)
+      rw [← hid, this]
+    · cases hlk : lookup r.byId h.id with
+      | some e0 => rw [addIfMissing_of_some r h e0 hlk]; exact hm
+      | none =>
+        intro e he
+        rcases (mem_add_new r h hlk e).mp he with rfl | he
+        · exact ⟨h, hl h List.mem_cons_self, rfl, rfl⟩
+        · exact hm e he
+
+/-- a refresh whose accepted reported hosts have pairwise distinct node addresses takes a fully consistent
+ring to a fully consistent ring (host ids may be reported twice: the first row counts) -/
+theorem refresh_RInv (r : Ring.Ring) (hr : RInv r) (filter : RHost → Bool) (reported : List RHost)
+    (hna : (acceptedAddrs filter reported).Nodup) : RInv (r.refresh filter reported).1 := by
+  rw [refresh_ring]
+  have h1 : RInv (removeAll r (goneOf r filter reported)) := removeAll_preserves RInv (fun r k h => RInv_remove r h k) _ r hr
+  have h2 : Matched (reported.filter (fun h => !filter h)) (removeAll r (goneOf r filter reported)) := by
+    intro e he
+    have hm := (mem_pass1 r hr.wf hr.knodup filter reported e).mp he
+    have hst := hm.2
+    unfold stays at hst
+    cases hl : lookup (reportedMap filter reported) e.1 with
+    | none => rw [hl] at hst; cases hst
+    | some x =>
+      rw [hl] at hst
+      simp only [Bool.and_eq_true, beq_iff_eq] at hst
+      have hmem := lookup_some_mem _ _ _ hl
+      unfold reportedMap at hmem
+      obtain ⟨y, hy, hyx⟩ := List.mem_map.mp hmem
+      have h1 : y.id = e.1 := congrArg Prod.fst hyx
+      have h2 : y = x := congrArg Prod.snd hyx
+      exact ⟨y, hy, h1, by rw [h2]; exact hst.2⟩
+  exact (addAll_RInv _ hna _ (fun _ h => h) _ h1 h2).1
 
 end C16
